@@ -213,6 +213,16 @@ def family_twins():
                 progs.append({"items": [sub([sub([dict(i) for i in a]), sub([dict(i) for i in b]), dict(tail)], 2)]})
                 progs.append({"items": [op("Reset", 5), sub([sub([dict(i) for i in a]), sub([dict(i) for i in b]), dict(tail)], 1, rel=[0, "S"])]})
                 progs.append({"items": [sub([dict(i) for i in a], 2), sub([dict(i) for i in b], 2), tail, op("Ry90", 1, rel=[1, t])]})
+    # (b'') three default-constructed parallel sub-circuits of different durations, a dependent operation referring to a non-last one (no pre-read needed
+    #       for the fresh / explicit / add / repeat variants), also one nesting level down
+    three = [sub([op("Wait", 0, d=1.0)]), sub([op("Wait", 1, d=3.0)]), sub([op("Wait", 2, d=5.0), op("Rx180", 2)])]
+    for ref in (0, 1):
+        for t in "FSE":
+            for q in (ref, 3):
+                dep = op("Rx180", q, rel=[ref, t])
+                progs.append({"items": [dict(i) for i in three] + [dep]})
+                progs.append({"items": [dict(i) for i in three] + [dep, op("DispersiveMeasure", q)]})
+                progs.append({"items": [op("Reset", 4), sub([dict(i) for i in three] + [dict(dep)], 1)]})
     # (b') measurements counted by the top-level circuit, next to a relation-less first-level sub-circuit (value-equal to the circuit once it was read)
     for inner in ([op("DispersiveMeasure", 0, acq="top")], [op("Rx180", 1), op("DispersiveMeasure", 1, tag="a", acq="top")]):
         progs.append({"items": [sub([dict(i) for i in inner]), op("DispersiveMeasure", 0)]})
